@@ -2,6 +2,7 @@ package checks
 
 import (
 	"fmt"
+	ctok "github.com/pip-services3-gox/pip-services3-expressions-gox/calculator/tokenizers"
 	"math/bits"
 	"sort"
 	"strings"
@@ -222,6 +223,92 @@ func c16Run(c *fw.Ctx, cfg *c16Cfg, ci int64, reads int) {
 	}
 }
 
+// ---- the expression tokenizer's own symbol state: a default table plus further registrations,
+// and a second instance that must keep the default table whatever was registered on the first
+
+var c16ExprDefaults = []string{"<=", ">=", "<>", "!=", ">>", "<<"}
+var c16ExprExtra = []struct {
+	text string
+	typ  int
+}{{"=>", 101}, {"<", 102}, {"<=>", 103}, {"!", 104}, {">>>", 105}, {"<>", 106}}
+var c16ExprInputs = c16Strings([]rune{'<', '>', '=', '!'}, 1, 4)
+
+func c16ExprRef(reg map[string]int, in []rune) (string, int) {
+	best, typ := string(in[:1]), tokenizers.Symbol
+	found := false
+	for s, t := range reg {
+		rs := []rune(s)
+		if len(rs) <= len(in) && string(in[:len(rs)]) == s && (!found || len(rs) > len([]rune(best))) {
+			best, typ, found = s, t, true
+		}
+	}
+	return best, typ
+}
+
+type c16SymbolState interface {
+	Add(value string, tokenType int)
+	NextToken(scanner rio.IScanner, tokenizer tokenizers.ITokenizer) *tokenizers.Token
+}
+
+func c16ExprRun(c *fw.Ctx, order []int) {
+	reg := map[string]int{}
+	for _, s := range c16ExprDefaults {
+		reg[s] = tokenizers.Symbol
+	}
+	defaults := map[string]int{}
+	for k, v := range reg {
+		defaults[k] = v
+	}
+	var a c16SymbolState = ctok.NewExpressionSymbolState()
+	hist := []string{}
+	read := func(st c16SymbolState, reg map[string]int, who string) {
+		for _, in := range c16ExprInputs {
+			rin := []rune(in)
+			wantText, wantType := c16ExprRef(reg, rin)
+			var tok *tokenizers.Token
+			var rest []rune
+			pv := fw.Try(func() {
+				sc := rio.NewStringScanner(in)
+				tok = st.NextToken(sc, nil)
+				for i := 0; i < len(rin)+2; i++ {
+					r := sc.Read()
+					if r == -1 {
+						break
+					}
+					rest = append(rest, r)
+				}
+			})
+			c.Eval(1)
+			if pv != nil || tok == nil {
+				c.Violation("symbol-read-panic:expression-state", "%s after [%s]: NextToken(%q) panicked: %v", who, strings.Join(hist, ";"), in, fw.PanicStr(pv))
+				return
+			}
+			if tok.Value() != wantText || tok.Type() != wantType || string(rest) != string(rin[len([]rune(wantText)):]) {
+				sig := "expression-symbol-state"
+				if who != "the state itself" {
+					sig = "registration-reaches-another-symbol-state"
+				}
+				c.Violation(sig, "%s after [%s] on the first state: NextToken(%q) = %q type %d leaving %q; longest registered prefix is %q with type %d", who, strings.Join(hist, ";"), in, tok.Value(), tok.Type(), string(rest), wantText, wantType)
+				return
+			}
+		}
+	}
+	read(a, reg, "the state itself")
+	for _, k := range order {
+		e := c16ExprExtra[k]
+		a.Add(e.text, e.typ)
+		reg[e.text] = e.typ
+		hist = append(hist, fmt.Sprintf("Add(%q,%d)", e.text, e.typ))
+		read(a, reg, "the state itself")
+		read(ctok.NewExpressionSymbolState(), defaults, "a NEW expression symbol state")
+	}
+	if len(order) > 0 {
+		c.Nontrivial()
+	}
+	c.Count("states", int64(len(order)+1))
+	c.Count("transitions", int64(len(order)*2+1)*int64(len(c16ExprInputs)))
+}
+
 var c16Cache = map[string]*c16Cfg{}
 
 func c16Get(tier, which string) *c16Cfg {
@@ -293,7 +380,7 @@ func init() {
 		ID:    "C16",
 		Level: "model_checking",
 		Rule: "symbol sets = subsets of the 14 strings of length 1..3 over {a,b} (own token type each), every registration order for sets of <=3 symbols (two orders otherwise); on each real tree every sequence of reads over all inputs of bounded length over {a,b,c}, " +
-			"and for every further candidate: read all inputs, Add it, read all inputs again; each read compared with 'longest registered prefix, else one character' for text, type and consumed length; same over {a,я} for the >U+00FF child lookup; plus sets of <=3 symbols of length up to 5 (a, aa, aaa, aaaa, aaab, aab, ab, aaaaa) in every order with inputs up to length 4, where a later-registered shorter symbol must be honoured by deeper nodes; non-trivial = tree with >=2 symbols",
+			"and for every further candidate: read all inputs, Add it, read all inputs again; each read compared with 'longest registered prefix, else one character' for text, type and consumed length; same over {a,я} for the >U+00FF child lookup; plus sets of <=3 symbols of length up to 5 (a, aa, aaa, aaaa, aaab, aab, ab, aaaaa) in every order with inputs up to length 4, where a later-registered shorter symbol must be honoured by deeper nodes; plus the expression tokenizer's own symbol state: its default table, every sequence of <=3 (thorough 4) further registrations out of 6 (new symbols, a prefix and an extension of default symbols, a default symbol re-registered with another type), all inputs of length<=4 over {<,>,=,!} after every step, and a NEW expression symbol state that must still read by the default table; non-trivial = tree with >=2 symbols",
 		Assume: []string{"trees are rebuilt from scratch for every read sequence (real objects cannot be cloned)"},
 		Spaces: func(tier string) []fw.Space {
 			sp := []fw.Space{}
@@ -312,6 +399,20 @@ func init() {
 			add("aя", 2, "sets-nonlatin-read-pairs")
 			add("deep", 1, "deep-symbols-monotonicity")
 			add("nonlatin3", 1, "three-nonlatin-alphabet")
+			ne := len(c16ExprExtra)
+			depth := 3
+			if tier == "thorough" {
+				depth = 4
+			}
+			sp = append(sp, fw.Space{Name: "expression-symbol-state", N: countStrings(ne, depth),
+				Run: func(c *fw.Ctx, i int64) { c16ExprRun(c, seqByIndex(ne, i)) },
+				Repr: func(i int64) string {
+					p := []string{}
+					for _, k := range seqByIndex(ne, i) {
+						p = append(p, fmt.Sprintf("Add(%q,%d)", c16ExprExtra[k].text, c16ExprExtra[k].typ))
+					}
+					return "expression symbol state (default table) then [" + strings.Join(p, ";") + "]"
+				}})
 			return sp
 		},
 		Bounds: func(tier string) string {
